@@ -1928,7 +1928,6 @@ struct PFile {
 
 const CLASS_D10: &str = "sst-final-block-unchecksummed-metadata";
 const CLASS_D3: &str = "log-replay-unwraps-reader-error";
-const CLASS_D11: &str = "log-header-length-zeroed-within-header-max-of-block-end";
 
 fn dmg_kind(d: &Dmg) -> &'static str {
     match d {
@@ -1947,23 +1946,6 @@ fn job_regions(f: &PFile, ds: &[Dmg]) -> Vec<String> {
             Dmg::App(_) => "append".into(),
         })
         .collect()
-}
-
-/// D-11's trigger, a predicate on the input: one damage step zeroes the length byte of a frame
-/// whose length byte lies at most HEADER_MAX_SIZE + 1 bytes before a block boundary that the file
-/// extends beyond
-fn d11_trigger(f: &PFile, ds: &[Dmg]) -> bool {
-    const BLOCK: usize = 1 << 20;
-    const H: usize = 19;
-    ds.iter().any(|d| {
-        let (o, newv) = match d {
-            Dmg::Flip(o, b) if *o < f.spec.bytes.len() => (*o, f.spec.bytes[*o] ^ (1 << b)),
-            Dmg::Over(o, v) => (*o, *v),
-            _ => return false,
-        };
-        let nb = ((o >> 20) + 1) << 20;
-        newv == 0 && f.frames.iter().any(|fr| fr.0 == o) && nb - (o + 1) <= H && f.spec.bytes.len() > nb && nb % BLOCK == 0
-    })
 }
 
 fn verdict(f: &PFile, ds: &[Dmg], r: &JobResult) -> Verdict {
@@ -1995,13 +1977,9 @@ fn verdict(f: &PFile, ds: &[Dmg], r: &JobResult) -> Verdict {
             }
         }
         "panic-replay-after-reader-error" => Verdict::Fail { class: CLASS_D3.into(), detail: detail(r) },
-        "different" => {
-            if f.spec.kind == "log" && d11_trigger(f, ds) {
-                Verdict::Fail { class: CLASS_D11.into(), detail: detail(r) }
-            } else {
-                Verdict::Fail { class: "unclassified-different".into(), detail: detail(r) }
-            }
-        }
+        // (a log whose reader steps over a frame with a zeroed header-length byte close to a block
+        // boundary lands here: D-11, repaired in `LogIterator::true_up`)
+        "different" => Verdict::Fail { class: "unclassified-different".into(), detail: detail(r) },
         "panic" => Verdict::Fail { class: "unclassified-panic".into(), detail: detail(r) },
         c => Verdict::Fail { class: c.to_string(), detail: detail(r) },
     }
